@@ -6,12 +6,12 @@ HERE = os.path.dirname(os.path.dirname(os.path.abspath(__file__)))
 CHECKS = {
  "C01": dict(engine="wsim", cat="exploration", ref="DESIGN.md §4 C01",
    technique="deterministic simulation of xz writer call histories behind a simulated sink (seeded search over Write partitions, block-rotation instants, zero-length writes, redundant Close / use after Close); library reader over the recorded sink history as oracle; minimised JSON scenario replay",
-   text="Seeded exploration of call histories x configurations x payload families; every run monitors the API contract call by call and decodes the recorded sink image with the library reader. A clean batch is evidence over the runs executed, not a proof; the history axis (partition, rotation, post-Close calls) is what the simulator owns, input x configuration is sampled.",
+   text="Seeded exploration of call histories x configurations x payload families; every run monitors the API contract call by call and decodes the recorded sink image with the library reader. A clean batch is evidence over the runs executed, not a proof; the history axis (partition, rotation, post-Close calls, writes through io.Copy from a plain reader whose last bytes come alone or together with io.EOF) is what the simulator owns, input x configuration is sampled. One case in 20 moves one configuration field out of its legal range: the constructor refusing it is no verdict, an accepted configuration is judged like any other.",
    note="Trusts: Go runtime, the harness's payload recipes, the library's own xz.Reader as decoder (independent validity is C02). Sink never fails here (C09)."),
 
  "C02": dict(engine="wsim", cat="exploration", ref="DESIGN.md §4 C02",
    technique="deterministic simulation of xz writer call histories; every recorded sink history is judged by an independent executable model of the .xz/LZMA2 format (own parser and decoder written from the specifications) and by liblzma through cgo",
-   text="Seeded exploration over configurations x payloads x Write partitions; each emitted image is parsed, decoded and cross-checked (CRCs, sizes, index, backward size, padding, checks, dictionary code minimal and covering all distances, exact BlockSize for non-last blocks) by refxz/reflzma and liblzma. Oracle disagreement is exit 2, never a violation.",
+   text="Seeded exploration over configurations x payloads x Write partitions; each emitted image is parsed, decoded and cross-checked (CRCs, sizes, index, backward size, padding, checks, dictionary code minimal and covering all distances, exact BlockSize for non-last blocks) by refxz/reflzma and liblzma. Oracle disagreement is exit 2, never a violation. As in C01, one case in 20 carries one configuration field outside its legal range (e.g. lc+lp > 4): whatever the library emits for a configuration it accepts is judged.",
    note="Trusted base: verif/ref/refxz + reflzma (independent of /repo; agree with liblzma and the reference encoder on generated streams), liblzma 5.4.1 when it links, Go std hashes. No fault dimension (validity under faults is checked inside C09)."),
  "C03": dict(engine="rsim", cat="exploration", ref="DESIGN.md §4 C03",
    technique="deterministic simulation: xz reader fed by a simulated foreign peer (specification-driven generator of arbitrary legal op/chunk/container layouts, liblzma encoder, frozen xz-utils corpus) behind a fragmenting source with seeded Read schedules and reader DictCap; three-way oracle",
@@ -19,7 +19,7 @@ CHECKS = {
    note="Trusted base: refenc/refxz/reflzma, liblzma. The stream space is sampled; the simulator owns fragmentation, schedule and DictCap."),
  "C06": dict(engine="wsim", cat="exploration", ref="DESIGN.md §4 C06",
    technique="deterministic simulation of classic-LZMA writer call histories incl. the explicit-size contract (surplus and deficit histories), header re-parsed independently, library reader as decoder",
-   text="Seeded exploration over all 225 property codes, DictCap/BufSize corners, both matchers, marker/size/size+marker, Size=len incl. 0, Write partitions, sinks with and without io.ByteWriter; contract monitored call by call (surplus refused with n==remaining, deficit fails Close), header truthfulness, round trip through lzma.Reader.",
+   text="Seeded exploration over all 225 property codes, DictCap/BufSize corners, both matchers, marker/size/size+marker, Size=len incl. 0, Write partitions, sinks with and without io.ByteWriter; contract monitored call by call (surplus refused with n==remaining, deficit fails Close), header truthfulness, round trip through lzma.Reader. Histories include writes through io.Copy from a plain reader (data alone or together with io.EOF) and configurations with one field outside its legal range (refusal = no verdict).",
    note="Trusts the library's lzma.Reader as decoder (foreign decoders: C07). Calls after Close unconstrained for this writer."),
  "C07": dict(engine="wsim+rsim", cat="exploration", ref="DESIGN.md §4 C07",
    technique="deterministic simulation both ways: writer histories decoded by the independent reference decoder and liblzma; streams of a simulated foreign peer (spec-driven generator in all three termination modes, liblzma alone encoder, corpus) read by lzma.Reader under seeded fragmentation and Read schedules",
@@ -27,7 +27,7 @@ CHECKS = {
    note="Trusted base: reflzma (applies liblzma's .lzma termination rules), liblzma 5.4.1, refenc."),
  "C08": dict(engine="wsim", cat="exploration", ref="DESIGN.md §4 C08",
    technique="deterministic simulation of LZMA2 writer call histories over {Write, Flush, Close, post-Close}: the sink image at every Flush return (= the image a crash right after the acknowledged Flush leaves) is decoded by the reference decoder and Reader2; idle Flush must emit nothing",
-   text="Seeded exploration of histories with Flush biased around the chunk limits, after incompressible segments, twice in a row and on a fresh writer. Invariants at each Flush return (whole chunks, no end chunk, decodes to exactly the bytes written before) and after Close (complete image decodes under Reader2, reflzma, liblzma; later calls fail and emit nothing). One or two margin probes per batch: the most expensive operation a stream can hold (a long far match the adaptive model does not expect) is placed, by bisection over the chunk headers of recorded sink images, at the compressed-size limit of a chunk, and every history of a 16-byte window around that point must satisfy the whole contract.",
+   text="Seeded exploration of histories with Flush biased around the chunk limits, after incompressible segments, twice in a row and on a fresh writer. Invariants at each Flush return (whole chunks, no end chunk, decodes to exactly the bytes written before) and after Close (complete image decodes under Reader2, reflzma, liblzma; later calls fail and emit nothing). One or two margin probes per batch: the most expensive operation a stream can hold (a long far match the adaptive model does not expect) is placed, by bisection over the chunk headers of recorded sink images, at the compressed-size limit of a chunk, and every history of a 16-byte window around that point must satisfy the whole contract. Histories include writes through io.Copy and configurations one field outside the legal range (refusal = no verdict).",
    note="Trusted base: reflzma, liblzma. Nothing demanded between flushes. Sink never fails here (C09). Rare expensive payload shapes (almost incompressible data, noise with far copies, one match 16-40 MiB back in a 32/64 MiB dictionary) are part of the quick batch."),
  "C12": dict(engine="rsim", cat="exploration", ref="DESIGN.md §4 C12",
    technique="deterministic simulation of an append-only file of several writer sessions plus stream padding: exhaustive padding enumeration 0..16 for chains of <=3 streams x SingleStream, seeded longer chains, trailing garbage, under fragmentation and Read schedules; executable model of the concatenation law as oracle",
@@ -39,11 +39,11 @@ CHECKS = {
    note="Streams sampled; a zero-length Read may return (0,nil) any time and (0,EOF) only once all content is delivered."),
  "C16": dict(engine="rsim+wsim", cat="exploration", ref="DESIGN.md §4 C16",
    technique="deterministic simulation with a simulated peer sending chunk histories: all chunk-kind sequences up to length 4 and all 256 control bytes in every reachable chunk state realised as concrete streams, seeded longer walks under fragmentation/Read schedules, oracle = format chunk-rule automaton cross-checked per case against reference decoder and liblzma; writer side: chunk headers walked in recorded writer histories",
-   text="Two complete sub-spaces (2800 short sequences, 5x256 control bytes) inside a seeded exploration (walks up to 14 chunks, writer histories of the LZMA2 and xz writers). Legal => decoded content equals generator content; illegal at chunk j => non-EOF error and no byte beyond the chunks before j.",
+   text="Two complete sub-spaces (2800 short sequences, 5x256 control bytes) inside a seeded exploration (walks up to 14 chunks, chunks filled to the 16-bit size limits, chunks of the most expensive legal operations whose compressed size exceeds their data by a third, writer histories of the LZMA2 and xz writers). Legal => decoded content equals generator content; illegal at chunk j => non-EOF error and no byte beyond the chunks before j.",
    note="Exploration level overall; the enumerated sub-spaces are reported under exhaustive_subspaces. Legality automaton cross-checked against reflzma and liblzma on every case."),
 
  "C04": dict(engine="dfault", cat="fault_enumeration", ref="DESIGN.md §4 C04",
-   technique="deterministic simulation of stored-data faults between writer and reader: per sampled stream every single-bit flip, every one-byte deletion and insertion, seeded bursts (<=32 bits) / range edits / double flips, and a structural mutator that edits one redundant field and re-seals the CRC32s (each edit first shown to the independent reference parser, which must reject it)",
+   technique="deterministic simulation of stored-data faults between writer and reader: per sampled stream every single-bit flip, every one-byte deletion and insertion, seeded bursts (<=32 bits) / range edits / double flips, and a structural mutator that edits one redundant field and re-seals the CRC32s - wrong, overflowing and over-long size fields, fields running over the end of their header, multi-byte filter ids, index/backward-size/flag/padding/check edits - (each edit first shown to the independent reference parser, which must reject it)",
    text="The per-stream fault spaces (all bit flips, all byte insert/delete offsets, all applicable field edits) are enumerated completely; streams (single-/multi-block, all check types, library- and generator-written, multi-stream for field edits) are sampled. Oracle 1: never a clean EOF after bytes that differ from the original (genuine checksum collisions counted, not reported). Oracle 2: every field edit the reference parser rejects must be reported as an error, also for check None.",
    note="Trusted base: refxz/reflzma for sites and for the mutator's self-check (a still-valid edit is exit 2). Streams are sampled; beyond 16 KiB or when a deterministic cost proxy is exceeded, positions are strided with structure boundaries kept."),
  "C05": dict(engine="dfault", cat="fault_enumeration", ref="DESIGN.md §4 C05",
